@@ -789,3 +789,130 @@ Section SimProofs.
       + reflexivity.
       + unfold Simulator.index_of. cbn [s_vars]. rewrite Ev. reflexivity.
   Qed.
+
+  (** ** user-facing consequences *)
+
+  (** the rows appended by an accepted call, spelled out *)
+  Definition appended (s s' : sim) (h : Q) (rest : list Q) : Prop :=
+    index_of s' = (match s_vars s with None => [add_shift (s_shift s) h] | Some _ => index_of s end)
+                  ++ map (add_shift (s_shift s)) rest
+    /\ (exists segs, s_vars s' = Some segs /\
+          last segs [] = map (fun t => (add_shift (s_shift s) t, flow (s_mp s) h (i_y0 (s_int s)) (t - h)))
+                             (match s_vars s with None => h :: rest | Some _ => rest end)
+          /\ removelast segs = match s_vars s with None => [] | Some l => l end)
+    /\ s_pars s' = Some ((match s_pars s with None => [] | Some l => l end) ++ [s_mp s])
+    /\ s_errs s' = s_errs s /\ s_mp s' = s_mp s /\ s_shift s' = s_shift s /\ s_y0 s' = s_y0 s.
+
+  Lemma after_ok_appended s h rest : appended s (after_ok s h rest) h rest.
+  Proof.
+    unfold appended. split; [apply after_ok_index|]. split.
+    - unfold after_ok. cbn [s_vars]. destruct (s_vars s) as [l|]; eexists; (split; [reflexivity|]).
+      + rewrite last_last, removelast_last. split; reflexivity.
+      + split; reflexivity.
+    - repeat split.
+  Qed.
+
+  Lemma errs_after_fail s : has_errors s = false -> has_errors (after_fail s) = true.
+  Proof. unfold Simulator.has_errors, after_fail. cbn [s_errs]. destruct (s_errs s); [reflexivity|discriminate]. Qed.
+
+  Lemma errs_after_ok s h rest : has_errors (after_ok s h rest) = has_errors s.
+  Proof. reflexivity. Qed.
+
+  (** simulate: refused exactly when the requested end is not later than the time reached;
+      otherwise the linspace points after the first are appended *)
+  Lemma simulate_spec (good : good_facts) s t_end steps m :
+    Inv2 s -> has_errors s = false -> n_points steps = S (S m) ->
+    (snd (simulate s t_end steps) = RaisedValue <-> t_end <= reached s)
+    /\ (snd (simulate s t_end steps) <> RaisedValue -> snd (simulate s t_end steps) = Done)
+    /\ (t_end <= reached s -> fst (simulate s t_end steps) = s)
+    /\ (forall s', simulate s t_end steps = (s', Done) -> has_errors s' = false ->
+          let h := sim_h s t_end m in let rest := sim_rest s t_end m in
+          h == i_t0 (s_int s) /\ i_t0 (s_int s) + shiftv s == reached s /\ i_y0 (s_int s) = start_state s
+          /\ incr (h :: rest) /\ appended s s' h rest
+          /\ reached s' == t_end /\ length rest = S m).
+  Proof.
+    intros [HI HV] Herr Hm.
+    destruct (sim_step good s t_end steps m HI Herr Hm) as [Hle Hgt].
+    destruct (Inv_prior s HI) as (r0 & Hpr & Hsync & _).
+    rewrite <- (reached_prior s r0 Hpr) in Hsync.
+    destruct (Qlt_le_dec (reached s) t_end) as [L|L].
+    - destruct (Hgt L) as (Hh & Hinc & E). rewrite E.
+      assert (Hrne : sim_rest s t_end m <> []) by (unfold sim_rest; destruct (map _ (seq 1 m)); discriminate).
+      split; [|split; [|split]].
+      + split; [|intro; lra]. destruct (solve_ok _ _ _ _); cbn [snd]; discriminate.
+      + destruct (solve_ok _ _ _ _); reflexivity.
+      + intro. lra.
+      + intros s' Es Herr'. destruct (solve_ok _ _ _ _).
+        * injection Es as <-. cbv zeta. split; [exact Hh|]. split; [exact Hsync|]. split; [exact HV|].
+          split; [exact Hinc|]. split; [apply after_ok_appended|].
+          destruct (after_ok_inv s _ _ HI Hh Hrne Hinc) as [_ Hp].
+          rewrite (reached_prior _ _ Hp). unfold sim_rest at 1. rewrite lastq_app, add_shift_v, sub_shift_v.
+          split; [lra|]. unfold sim_rest. rewrite app_length, map_length, seq_length. cbn. lia.
+        * injection Es as <-. rewrite (errs_after_fail s Herr) in Herr'. discriminate.
+    - rewrite (Hle L). cbn [fst snd]. split; [tauto|]. split; [congruence|]. split; [reflexivity|].
+      intros s' Es. discriminate.
+  Qed.
+
+  (** simulate_time_course: refused exactly when the last point is not later than the time reached
+      (or the kept points are not increasing -- scipy rejects that array); otherwise EXACTLY the
+      requested points later than the time reached are appended, in order, each once *)
+  Lemma time_course_spec (good : good_facts) s pts :
+    Inv2 s -> has_errors s = false -> pts <> [] ->
+    (snd (simulate_time_course s pts) = RaisedValue <->
+       lastq pts 0 <= reached s \/ ~ incr (filter (fun t => Qle_bool (reached s) t) pts))
+    /\ (snd (simulate_time_course s pts) <> RaisedValue -> snd (simulate_time_course s pts) = Done)
+    /\ (snd (simulate_time_course s pts) = RaisedValue -> fst (simulate_time_course s pts) = s)
+    /\ (forall s', simulate_time_course s pts = (s', Done) -> has_errors s' = false ->
+          exists h rest,
+            h == i_t0 (s_int s) /\ i_t0 (s_int s) + shiftv s == reached s /\ i_y0 (s_int s) = start_state s
+            /\ incr (h :: rest) /\ appended s s' h rest
+            /\ Qeql (map (add_shift (s_shift s)) rest) (filter (fun t => Qltb (reached s) t) pts)
+            /\ reached s' == lastq pts 0).
+  Proof.
+    intros [HI HV] Herr Hne.
+    destruct (tc_step good s pts HI Herr Hne) as [Hle Hgt].
+    destruct (Inv_prior s HI) as (r0 & Hpr & Hsync & _).
+    rewrite <- (reached_prior s r0 Hpr) in Hsync.
+    destruct (Qlt_le_dec (reached s) (lastq pts 0)) as [L|L].
+    - destruct (Hgt L) as (h & rest & Heff & Hh & Hrne & Hsh & E). rewrite E.
+      destruct (tc_new_points s pts h rest Hsync Hh Hsh) as [Hiff Hnew].
+      unfold step_result.
+      destruct (incrb (h :: rest)) eqn:Eb.
+      + pose proof (incrb_incr _ Eb) as Hinc.
+        split; [|split; [|split]].
+        * split; [destruct (solve_ok _ _ _ _); cbn [snd]; discriminate|].
+          intros [H|H]; [lra|]. exfalso. apply H, Hiff, Hinc.
+        * destruct (solve_ok _ _ _ _); reflexivity.
+        * destruct (solve_ok _ _ _ _); cbn [snd]; discriminate.
+        * intros s' Es Herr'. destruct (solve_ok _ _ _ _).
+          -- injection Es as <-. exists h, rest. split; [exact Hh|]. split; [exact Hsync|]. split; [exact HV|].
+             split; [exact Hinc|]. split; [apply after_ok_appended|]. split; [exact (Hnew Hinc)|].
+             destruct (after_ok_inv s _ _ HI Hh Hrne Hinc) as [_ Hp].
+             rewrite (reached_prior _ _ Hp).
+             (* the last appended point is the last requested point *)
+             assert (Hl : Qeql (map (add_shift (s_shift s)) rest) (filter (fun t => Qltb (reached s) t) pts)) by exact (Hnew Hinc).
+             destruct (filter_last (fun t => Qltb (reached s) t) pts 0 Hne) as [Hfne Hfl]; [apply Qltb_iff; exact L|].
+             rewrite <- Hfl.
+             clear - Hl Hrne Hfne. revert Hl Hfne. generalize (filter (fun t => Qltb (reached s) t) pts) as l2.
+             revert h. induction rest as [|x r IH]; [congruence|]. intros h l2 Hl Hfne.
+             inversion Hl as [|x' y' l1' l2' Hxy Hrest]; subst.
+             destruct r as [|z r'].
+             ++ inversion Hrest; subst. cbn. exact Hxy.
+             ++ destruct l2' as [|w l2'']; [inversion Hrest|].
+                change (lastq (x :: z :: r') h) with (lastq (z :: r') h).
+                change (lastq (y' :: w :: l2'') 0) with (lastq (w :: l2'') 0).
+                rewrite (lastq_default (z :: r') h x ltac:(discriminate)).
+                apply (IH ltac:(discriminate) x (w :: l2'') Hrest). discriminate.
+          -- injection Es as <-. rewrite (errs_after_fail s Herr) in Herr'. discriminate.
+      + cbn [fst snd]. split; [|split; [|split]].
+        * split; [|reflexivity]. intros _. right. intro Hk. apply Hiff in Hk. apply incr_incrb in Hk. congruence.
+        * congruence.
+        * reflexivity.
+        * intros s' Es. discriminate.
+    - rewrite (Hle L). cbn [fst snd]. split; [|split; [|split]].
+      + split; [intros _; left; exact L|reflexivity].
+      + congruence.
+      + reflexivity.
+      + intros s' Es. discriminate.
+  Qed.
+End SimProofs.
